@@ -18,9 +18,9 @@ import collections, os
 import vlib
 from props import c05, c05spec
 
-KINDS = {"superblock": 1, "msg-dataspace": 5, "msg-datatype": 6, "msg-layout": 7, "msg-attribute": 9, "msg-link": 11, "msg-symtab": 12}
+KINDS = {"superblock": 1, "msg-dataspace": 5, "msg-datatype": 6, "msg-layout": 7, "msg-attribute": 9, "msg-attrinfo": 10, "msg-link": 11, "msg-symtab": 12}
 GO_KIND = {"superblock": "superblock", "msg-dataspace": "dataspace", "msg-datatype": "datatype", "msg-layout": "layout",
-           "msg-attribute": "attribute", "msg-link": "link", "msg-symtab": "symtab"}
+           "msg-attribute": "attribute", "msg-attrinfo": "attrinfo", "msg-link": "link", "msg-symtab": "symtab"}
 HEADER = "From HV Require Import Base.Prelude Base.Outcome Base.Bytes Model.ReaderSpecTie.\n"
 
 
@@ -97,7 +97,7 @@ def tie(ctx):
     go = {}
     if bad:
         cases = [dict(kind=GO_KIND[s["kind"]], raw=s["bytes"].hex(),
-                      sb=dict(v=2, o=(s["ctx"][0] if s["kind"] in ("msg-layout", "msg-link", "msg-symtab") and s["ctx"] else 8),
+                      sb=dict(v=2, o=(s["ctx"][0] if s["kind"] in ("msg-layout", "msg-link", "msg-symtab", "msg-attrinfo") and s["ctx"] else 8),
                               l=(s["ctx"][1] if s["kind"] == "msg-layout" else (s["ctx"][0] if s["kind"] in ("msg-dataspace", "msg-attribute") and s["ctx"] else 8)),
                               be=False)) for s, _ in bad[:50]]
         try:
